@@ -9,13 +9,18 @@ import (
 	_ "github.com/emersion/go-webdav/verifharness/props/c02"
 	_ "github.com/emersion/go-webdav/verifharness/props/c03"
 	_ "github.com/emersion/go-webdav/verifharness/props/c04"
+	_ "github.com/emersion/go-webdav/verifharness/props/c05"
+	_ "github.com/emersion/go-webdav/verifharness/props/c06"
 	_ "github.com/emersion/go-webdav/verifharness/props/c07"
 	_ "github.com/emersion/go-webdav/verifharness/props/c08"
 	_ "github.com/emersion/go-webdav/verifharness/props/c09"
+	_ "github.com/emersion/go-webdav/verifharness/props/c10"
 	_ "github.com/emersion/go-webdav/verifharness/props/c11"
 	_ "github.com/emersion/go-webdav/verifharness/props/c12"
 	_ "github.com/emersion/go-webdav/verifharness/props/c15"
+	_ "github.com/emersion/go-webdav/verifharness/props/c16"
 	_ "github.com/emersion/go-webdav/verifharness/props/c17"
+	_ "github.com/emersion/go-webdav/verifharness/props/c18"
 	_ "github.com/emersion/go-webdav/verifharness/props/c19"
 )
 
